@@ -519,7 +519,9 @@ class FunctionStub(Stub):
         # Yes, this is a horrible hack, but inspect.py gives us no way to
         # specify the function that should be used to format annotations.
         for module in self.strip_modules:
-            s = s.replace(module + ".", "")
+            # strip whole dotted prefixes only: "utils." must not eat the tail of
+            # "pkg.utils." or of "myutils."
+            s = re.sub(r"(?<![\w.])" + re.escape(module + "."), "", s)
         if self.kind == FunctionKind.CLASS:
             s = prefix + "@classmethod\n" + s
         elif self.kind == FunctionKind.STATIC:
